@@ -384,16 +384,18 @@ def run(tier, seed):
                       "Tree/CompatSpec.v ValidIn as the meaning of `valid in version v` (top-down types as in parser.rs)"],
         checker_cmd="python3 tools/coqmake.py Properties/C17.vo && Print Assumptions per theorem; ocaml/build_tree.sh; avh tree run / avm_tree / avh compat sweep",
         assumptions=["Weak references always upgrade (the harness keeps every handle and model)",
-                     "C17_exact is stated outside the classes K_recalc / K_mixup / K_skip; C17_no_known_typed / C17_exact_real show that they "
-                     "cannot occur in typed worlds (C03's invariant Core + every element stored with the datatype its parent lists for its "
-                     "name; established by creation and loading, NOT by move/copy between parents that list different datatypes for the "
-                     "name) on tables with PairOK, which the regenerated real tables satisfy ([F] sweep Gen/CompatSweep*.v); "
-                     "C17_exact_refuted_* / C17_mixup_panics show the classes on a toy table set",
-                     "link to strict loading: C17_valid_loads / C17_clean_loads / C17_set_version_loads use the C01 theorems "
-                     "(C01_file_roundtrip, rootcanonb) for the v-typed per-file projection under the DECIDABLE side condition rootrestb "
-                     "(canonical root except the version-mask tests); that Tree/Serialize.ser_heap writes exactly ser_elem of that projection is "
-                     "covered by the C01/C10 correspondences and the oracle here, not proved; the older C17_exact_load / "
-                     "C17_set_version_reload (explicit RoundTrip hypothesis) are kept",
+                     "C17_exact is stated outside the classes K_recalc / K_mixup / K_skip; C17_exact_histories_real: on the regenerated real "
+                     "tables (PairOK and MaskOK by sweep) the check is exact after EVERY history of the 26-operation alphabet from the empty "
+                     "world whose moves / copies satisfy attach_ok (the destination lists the element's name with the element's stored "
+                     "datatype) - no hypothesis about the world; extended alphabet: sort, set_version, check, serialize covered "
+                     "(C17_exact_histories2_real_partial), OpLoad and OpDuplicate pending; a move / copy violating attach_ok really builds a "
+                     "document that neither loads strictly in its own version nor is flagged (avh compat xattach, findings/"
+                     "C17-attach-keeps-stored-type.json; C07's subject); C17_exact_refuted_* / C17_mixup_panics show the classes on a toy table set",
+                     "link to strict loading: C17_valid_loads / C17_clean_loads / C17_set_version_loads use the C01 theorems for the v-typed "
+                     "per-file projection under the DECIDABLE side condition rootrestb; C17_ser_heap_is_projection / C17_file_text_loads: the "
+                     "heap serializer writes exactly the text of that projection under SerCond (same content mode of stored and v-type, no "
+                     "fully filtered non-empty content list), so the ACTUAL text of ArxmlFile::serialize loads strictly; the older "
+                     "C17_exact_load / C17_set_version_reload (explicit RoundTrip hypothesis) are kept",
                      "known (not repaired): SHORT-NAME required only in the target version; pattern/number re-validation of values when the element "
                      "type of a name differs between versions (both are failures of rootrestb, not of ValidIn)"])
 
